@@ -495,8 +495,22 @@ def run(tier):
                 return json.loads(p.stdout)
             return fn
         metas = _parallel([e2e_job(a) for _, _, a, _ in e2e_jobs], E2E_PROCS * 2)
-        for (name, behs, _, tp), meta in zip(e2e_jobs, metas):
-            traces.append((name, tp, meta, behs))
+        # one trace per source: behaviour numbers made global, replay inputs concatenated alike
+        for src in ("gen:e2e", "random:e2e"):
+            rows_all, behs_all, nb = [], ([] if src == "gen:e2e" else None), 0
+            for (name, behs, _, tp), meta in zip(e2e_jobs, metas):
+                if name != src:
+                    continue
+                for r in vf.read_ndjson(tp):
+                    r["b"] += nb
+                    rows_all.append(r)
+                nb += meta["behaviours"]
+                if behs_all is not None:
+                    behs_all.extend(behs)
+            if rows_all:
+                tp = os.path.join(work, src.replace(":", "-") + ".ndjson")
+                vf.write_ndjson(tp, rows_all)
+                traces.append((src, tp, {"behaviours": nb, "events": len(rows_all)}, behs_all))
 
         # 4. TLC judges every recorded step
         n_beh = n_events = 0
